@@ -188,7 +188,7 @@ func c04Check(c *Ctx, doc *XElem, path string, choices []int) (nontrivial bool) 
 func c04Decos(base *XElem, thorough bool) []Deco {
 	var ds []Deco
 	els := base.elems()
-	vals := []string{"v", "a&b<c>", "\"q\" 'r'", "é", " s ", "\u00a0t\u2028", "1.50"}
+	vals := []string{"v", "a&b<c>", "\"q\" 'r'", "é", " s ", "\u00a0t\u2028", "1.50", "\u010dx\u2020"}
 	for i, e := range els {
 		nk := len(e.Items)
 		for _, an := range []string{"x", "y", "n:x", "xmlns:q"} {
